@@ -448,6 +448,29 @@ pub fn gen(prop: &str, rng: &mut Rng, quick: bool, st: &mut Stats) -> Option<Vec
                 c.push(format!("chk_torn {mode} {ops}"));
                 st.bump("torn_with_leaf_spill");
             }
+            // tile data of a few KiB to a few hundred KiB (whole archives around the sizes of common copy buffers), and
+            // contents with long runs of zeros - at the start, in the middle, at the very end of the data section
+            for (i, sizes) in [vec![10_000usize], vec![8_192], vec![16_384], vec![16_385, 3], vec![5_000, 7_000], vec![4_096, 4_096, 4_097], vec![70_000, 100], vec![300_000]].iter().enumerate() {
+                let mode = if i % 2 == 0 { "sync" } else { "async" };
+                let mut ops = vec![format!("c:{}", comp_tok(ALL_COMP[i % 4]))];
+                for (k, sz) in sizes.iter().enumerate() {
+                    ops.push(format!("a:{:x}:{}", 3 + 2 * k, hex_bytes(&rng.bytes(*sz))));
+                }
+                c.push(format!("chk_torn {mode} {}", ops.join(";")));
+                st.bump("torn_with_kilobytes_of_tile_data");
+            }
+            for (i, (head, zeros, tail)) in [(5usize, 8_192usize, 0usize), (0, 12_288, 0), (100, 20_000, 0), (0, 4_096, 1), (3, 9_000, 3), (0, 65_536, 0), (4_096, 4_096, 0)].iter().enumerate() {
+                let mode = if i % 2 == 0 { "async" } else { "sync" };
+                let mut t = rng.bytes(*head);
+                t.extend(std::iter::repeat(0u8).take(*zeros));
+                t.extend(rng.bytes(*tail).iter().map(|b| b | 1));
+                // the tile with the zeros is the last one stored; a variant with another tile behind it
+                let mut ops = vec!["c:none".to_string(), format!("a:1:{}", hex_bytes(&rng.bytes(50))), format!("a:9:{}", hex_bytes(&t))];
+                c.push(format!("chk_torn {mode} {}", ops.join(";")));
+                ops.push(format!("a:b:{}", hex_bytes(&rng.bytes(7))));
+                c.push(format!("chk_torn {mode} {}", ops.join(";")));
+                st.bump("torn_with_zero_filled_contents");
+            }
             let ops = spill_ops(rng, 4300, Compression::None);
             c.push(format!("hist sync {ops};w:s:0:-"));
             // more than 4 GiB of tile data (about 10 GiB of memory while it runs)
